@@ -11,7 +11,7 @@ def replay(prop, path):
     print("replaying %s (%s): %s" % (path, rec.get("class"), rec.get("message")))
     from . import replayers
     probs = replayers.rerun(rec)
-    mine = [p for p in probs if p.get("prop") == prop]
+    mine = [p for p in probs if p.get("prop") in (prop, None)]
     for p in mine:
         print("  still deviates: [%s] %s" % (p.get("cls"), p.get("msg")))
     if mine:
